@@ -61,7 +61,7 @@ PBCS = C7.PBCS
 SYSDEFS = C7.SYSDEFS
 ATOM_STYLES = C7.ATOM_STYLES
 if THOROUGH:
-    FORMATS = ['%.13f', '%.10e', '%.6f']
+    FORMATS = ['%.13f', '%.10e', '%.6f', '%.16e']
     FORMS = ['str', 'path', 'stream', 'file']
 else:
     FORMATS = ['%.13f', '%.10e']
